@@ -1271,7 +1271,7 @@ impl Prop for C17 {
     fn runs(&self, tier: Tier) -> u64 {
         match tier {
             Tier::Quick => 200_000,
-            Tier::Thorough => 24_000_000,
+            Tier::Thorough => 12_000_000,
         }
     }
 
